@@ -14,7 +14,7 @@ use std::io::Read;
 use std::sync::Arc;
 
 pub fn count(tier: Tier) -> u64 {
-    tier.pick(400, 2400)
+    tier.pick(400, 10000)
 }
 
 pub fn gen(seed: u64, tier: Tier, k: u64) -> Value {
